@@ -26,3 +26,6 @@ open UtilModel UtilModel.CContainer
 #print axioms UtilModel.CContainer.C15_watch_obs
 #print axioms UtilModel.CContainer.C15_obs_w
 #print axioms UtilModel.C15W_accepted
+#print axioms UtilModel.complete_ccontainer_w
+#print axioms UtilModel.quotok_ccontainer_w
+#print axioms UtilModel.reject_sound_ccontainer_w
